@@ -82,10 +82,10 @@ C09 ==
 TypeOK ==
     /\ hdr \in BOOLEAN
     /\ len \in -1..MaxU16
-    /\ payload >= 0
+    /\ payload \in Nat
     /\ addr \in {0, 12, 36, 216}
     /\ field \in 0..MaxU16
-    /\ built >= -2 /\ built <= MaxU16
+    /\ built \in -2..MaxU16
 
 IndInv == TypeOK /\ C09 /\ (~hdr => payload = 0)
 
